@@ -216,6 +216,15 @@ func cmdCheck(args []string) int {
 	for _, f := range funcs {
 		ex, err := w.verifyFunc(f.u, f.name)
 		if err != nil {
+			if ex != nil && strings.HasPrefix(err.Error(), "contract error") || (ex != nil && strings.Contains(err.Error(), "not found in")) || (ex != nil && strings.Contains(err.Error(), "binds")) {
+				// the contract no longer binds to the code: a failed obligation
+				// of that function, not a broken check
+				ex.Obs = map[string]*Obligation{}
+				ex.ObOrd = nil
+				ex.obligeAST("contract-binding", "contract_applies_to_the_current_code", 0, false, err.Error(), []string{prop})
+				exs = append(exs, ex)
+				continue
+			}
 			genErrs = append(genErrs, err.Error())
 			continue
 		}
@@ -234,7 +243,7 @@ func cmdCheck(args []string) int {
 	}
 	dir, _ := os.MkdirTemp("", "govc-"+prop)
 	defer os.RemoveAll(dir)
-	opts := dischargeOpts{timeoutS: 10, dir: dir, jobs: 5}
+	opts := dischargeOpts{timeoutS: 15, dir: dir, jobs: 5}
 	if tier == "thorough" {
 		opts.timeoutS = 60
 		opts.all = true
